@@ -269,6 +269,7 @@ FPBASE_OPS(256)
     EX void vk_##n##_exp64(void* o, const void* a, const void* e) { exponentiate(M(T, o), C(T, a), C(BigInt<64>, e)); } \
     EX void vk_##n##_exp256(void* o, const void* a, const void* e) { exponentiate(M(T, o), C(T, a), C(BigInt<256>, e)); } \
     EX void vk_##n##_exp384(void* o, const void* a, const void* e) { exponentiate(M(T, o), C(T, a), C(BigInt<384>, e)); } \
+    EX void vk_##n##_exp768(void* o, const void* a, const void* e) { exponentiate(M(T, o), C(T, a), C(BigInt<768>, e)); } \
     EX void vk_##n##_exp256_restrict(void* o, const void* a, const void* e) { exponentiate_restrict(M(T, o), C(T, a), C(BigInt<256>, e)); }
 FP_OPS(fq, Fq, 384)
 FP_OPS(fr, Fr, 256)
@@ -295,7 +296,8 @@ EX void vk_fq_read_be(void* o, const void* buf) { M(Fq, o).read_big_endian((cons
     EX int vk_##n##_equal(const void* a, const void* b) { return T::equal(C(T, a), C(T, b)) ? 1 : 0; } \
     EX void vk_##n##_exp64(void* o, const void* a, const void* e) { exponentiate(M(T, o), C(T, a), C(BigInt<64>, e)); } \
     EX void vk_##n##_exp256(void* o, const void* a, const void* e) { exponentiate(M(T, o), C(T, a), C(BigInt<256>, e)); } \
-    EX void vk_##n##_exp384(void* o, const void* a, const void* e) { exponentiate(M(T, o), C(T, a), C(BigInt<384>, e)); }
+    EX void vk_##n##_exp384(void* o, const void* a, const void* e) { exponentiate(M(T, o), C(T, a), C(BigInt<384>, e)); } \
+    EX void vk_##n##_exp768(void* o, const void* a, const void* e) { exponentiate(M(T, o), C(T, a), C(BigInt<768>, e)); }
 EXT_OPS(fq2, Fq2)
 EXT_OPS(fq6, Fq6)
 EXT_OPS(fq12, Fq12)
